@@ -518,7 +518,7 @@ def input_check(case, ctx):
 
 def marker_enum(ctx):
     from . import c03
-    for i in range(5):
+    for i in range(len(c03.SPECIAL_UNITS)):
         for t in range(3):
             yield {"unit": i, "t": t}
 
@@ -539,6 +539,11 @@ def marker_check(case, ctx):
     if errs:
         res.fail = dict(sig="", msg="calls and definitions disagree (%s): %s" % (target, errs[:3]), input=src, il=p.out.decode()[:1500])
         return res
+    # an aggregate that is passed or returned by value must be described with its members (or as an opaque block of its size)
+    for td in mod.types.values():
+        if not td.fields and not td.opaque_size:
+            res.fail = dict(sig="", msg="type :%s is described as an empty aggregate (%s)" % (td.name, target), input=src, il=p.out.decode()[:1500])
+            return res
     # every call of a function pointer typed `T (...)` / `T (int, ...)` must carry the marker after the named arguments
     want = {"vzp": 0, "vqp": 0}
     for f in mod.funcs:
